@@ -216,7 +216,94 @@ fn generate_cyclic(seed: u64, n: usize, emit: &mut dyn FnMut(String)) {
 	}
 }
 
+/// Every frozen node kind (each logical type on each base type, as one-node schemas) against every
+/// deserializer entry point (one hint per `deserialize_*` method the crate implements itself), on a
+/// valid datum for the node and on a few fixed byte patterns; slice and 1-byte-chunk reader.
+fn generate_table(seed: u64, emit: &mut dyn FnMut(String)) {
+	let mut rng = rng_from(seed, "de-table");
+	let logicals: Vec<Option<Logical>> = vec![
+		None,
+		Some(Logical::Decimal(1, 10)),
+		Some(Logical::Uuid),
+		Some(Logical::Date),
+		Some(Logical::TimeMillis),
+		Some(Logical::TimeMicros),
+		Some(Logical::TimestampMillis),
+		Some(Logical::TimestampMicros),
+		Some(Logical::Duration),
+		Some(Logical::BigDecimal),
+		Some(Logical::Unknown("custom".into())),
+	];
+	let bases: Vec<Reg> = vec![
+		Reg::Null,
+		Reg::Boolean,
+		Reg::Int,
+		Reg::Long,
+		Reg::Float,
+		Reg::Double,
+		Reg::Bytes,
+		Reg::String,
+		Reg::Array(1),
+		Reg::Map(1),
+		Reg::Union(vec![2, 1]),
+		Reg::Record("R".into(), vec![("a".into(), 1)]),
+		Reg::Enum("E".into(), vec!["A".into(), "B".into()]),
+		Reg::Fixed("F12".into(), 12),
+		Reg::Fixed("F4".into(), 4),
+	];
+	let any = || Box::new(Hint::Any);
+	let hints: Vec<Hint> = vec![
+		Hint::Any,
+		Hint::U64,
+		Hint::I64,
+		Hint::U128,
+		Hint::I128,
+		Hint::F64,
+		Hint::Str,
+		Hint::Bytes,
+		Hint::Identifier,
+		Hint::Ignored,
+		Hint::Option(any()),
+		Hint::Seq(any()),
+		Hint::Tuple(3, any()),
+		Hint::Map(any(), any()),
+		Hint::Struct(vec![("a".into(), Hint::Any)]),
+		Hint::Struct(vec![("months".into(), Hint::Any), ("days".into(), Hint::Any), ("milliseconds".into(), Hint::Any)]),
+		Hint::Enum(vec![("A".into(), VariantHint::Unit), ("B".into(), VariantHint::Unit)]),
+		Hint::Enum(vec![
+			("Null".into(), VariantHint::Unit),
+			("Int".into(), VariantHint::Newtype(Hint::Any)),
+			("R".into(), VariantHint::Struct(vec![("a".into(), Hint::Any)])),
+			("Array".into(), VariantHint::Tuple(1, Hint::Any)),
+		]),
+	];
+	for l in &logicals {
+		for b in &bases {
+			let schema = vec![
+				RawNode { reg: b.clone(), logical: if matches!(b, Reg::Union(_)) { None } else { l.clone() } },
+				RawNode { reg: Reg::Int, logical: None },
+				RawNode { reg: Reg::Null, logical: None },
+			];
+			let mut datum = vec![];
+			DatumGen { rng: &mut rng, schema: &schema, fancy_layout: true, nonminimal: 0.0 }.gen(0, 0, &mut datum);
+			let mut patterns: Vec<Vec<u8>> = vec![datum.clone(), vec![], vec![0], vec![2, 0x41, 0], vec![0x18; 14]];
+			if !datum.is_empty() {
+				patterns.push(datum[..datum.len() - 1].to_vec());
+			}
+			for h in &hints {
+				for bytes in &patterns {
+					emit(case_line(&Backend::Slice, 1000, 64, &schema, h, bytes));
+					emit(case_line(&Backend::Reader { last: 1, sched: vec![], max_alloc: 512 * 1024 * 1024 }, 1000, 64, &schema, h, bytes));
+				}
+			}
+		}
+	}
+}
+
 pub fn generate(stream: &str, seed: u64, n: usize, emit: &mut dyn FnMut(String)) {
+	if stream == "de-table" {
+		return generate_table(seed, emit);
+	}
 	if stream == "de-seqlimit" {
 		return generate_seqlimit(seed, n, emit);
 	}
